@@ -100,7 +100,7 @@ def check_a(ctx, facts):
 
 def check_b(ctx, facts):
     sim = facts.cls('Simulator', SIM)
-    cyc = facts.lookup(sim, '_clk_cycle')
+    cyc = facts.lookup_inl(sim, '_clk_cycle')
     if cyc is None:
         ctx.error('C05.b', 'anchor Simulator._clk_cycle not found')
         return
@@ -192,7 +192,7 @@ def check_b(ctx, facts):
     for cname, mname, callee in (('Simulator', '_clk_cycle', 'propagate'), ('ClockDriverSimulator', 'clockAll', 'clock'),
                                 ('Simulator', 'propagateAll', 'propagate')):
         c = facts.cls(cname, SIM)
-        m = facts.lookup(c, mname)
+        m = facts.lookup_inl(c, mname)
         if m is None:
             ctx.error('C05.b', 'anchor %s.%s not found' % (cname, mname))
             continue
@@ -366,7 +366,7 @@ def check_c(ctx, facts):
     ctx.floor('C05.c', 'prepare() implementations', n_prep, 2)
     # the simulator calls the settleAll that was analysed
     sim = facts.cls('Simulator', SIM)
-    cyc = facts.lookup(sim, '_clk_cycle')
+    cyc = facts.lookup_inl(sim, '_clk_cycle')
     calls = [n for n in ast.walk(cyc) if isinstance(n, ast.Call) and is_call_to(n, 'settleAll')] if cyc else []
     for n in calls:
         recv = norm(n.func.value) if isinstance(n.func, ast.Attribute) else ''
